@@ -823,8 +823,11 @@ event_base_cancel_single_callback_(struct event_base *base,
 		case EV_CLOSURE_EVENT_FINALIZE:
 		case EV_CLOSURE_EVENT_FINALIZE_FREE: {
 			struct event *ev = event_callback_to_event(evcb);
+			/* The finalizer may release the memory of a plain
+			 * event_finalize()d event: do not read it afterwards. */
+			const ev_uint8_t evcb_closure = evcb->evcb_closure;
 			ev->ev_evcallback.evcb_cb_union.evcb_evfinalize(ev, ev->ev_arg);
-			if (evcb->evcb_closure == EV_CLOSURE_EVENT_FINALIZE_FREE)
+			if (evcb_closure == EV_CLOSURE_EVENT_FINALIZE_FREE)
 				mm_free(ev);
 			break;
 		}
